@@ -253,6 +253,8 @@ def run(facts):
             a = s["args"]
             shape = (a[1] == ("const", 1) and a[2] == ("const", 0))
             probs = []
+            if s["method"] == "compare_exchange_weak" and not cfg.reaches(s["bb"], s["bb"]):
+                probs.append("a weak compare-exchange may fail spuriously: outside a retry loop a spurious failure is taken for a lost race (the buffer is treated as shared)")
             if not shape:
                 probs.append("B2: take-over CAS is not 1 -> 0")
             if succ not in HAS_ACQUIRE:
@@ -286,6 +288,9 @@ def run(facts):
                 probs.append("O4: publishing CAS success is %s, needs Release (the new control block must be visible to whoever loads the pointer)" % succ)
             if succ not in HAS_ACQUIRE:
                 probs.append("O4: publishing CAS success is %s, needs Acquire" % succ)
+            if s["method"] == "compare_exchange_weak" and not cfg.reaches(s["bb"], s["bb"]):
+                probs.append("a weak compare-exchange may fail spuriously with the expected value still in place: outside a retry loop the Err edge takes the unchanged "
+                             "pointer for the winner's control block")
             # is the failure value used?
             used = err_value_used(s, b, facts)
             if used and fail not in HAS_ACQUIRE:
